@@ -306,8 +306,10 @@ theorem join_getBoundary_external {ps : List Patch} {cs : List Conn} {name : Str
 /-- **The layouts of the property satisfy the hypotheses.**  For every grid (or chain) of n-cubes
     in dimension 1..3 — any number of patches along each axis, any axes closed periodically
     (with at least two patches along a closed axis), plain or mapped patches with pairwise
-    different `|`-free names — every duplicate-free selection of the geometric connections, in
-    any order, satisfies `ConnsOk`, and `Domain.join` succeeds on it. -/
+    different `|`-free names, any orientation declared (or omitted) per connection that is valid
+    for the dimension — every duplicate-free selection of the geometric connections (the `+a`
+    face of a patch with the `-a` face of its neighbour), in any order, satisfies `ConnsOk`, and
+    `Domain.join` succeeds on it. -/
 theorem grid_connections_ok (g : Grid) (hg : GridOk g) (hlen : 2 ≤ g.patches.length)
     (cs : List Conn) (hsel : GridSel g cs) (name : String) :
     NamesOk g.patches ∧ ConnsOk g.patches cs ∧ ∃ d, join g.patches cs name = .ok d := by
